@@ -146,7 +146,13 @@ fn op1<C: DateRoll>(c: &C, op: i128, a: &[i128]) -> Ints {
         }),
         // 41 / 42 / 43 = 11 / 12 / 13 from a datetime WITH a time of day: last argument = seconds after midnight; the answer
         // is the day number of the result, whose time of day must be the one supplied (else -7 and the raw seconds)
-        41 | 42 | 43 => {
+        // 44: the four predicates at the datetime a[0] + a[1] seconds
+        44 => {
+            let dt = from_n(a[0]) + chrono::TimeDelta::seconds(a[1] as i64);
+            vec![c.is_bus_day(&dt) as i128, c.is_settlement(&dt) as i128, c.is_weekday(&dt) as i128, c.is_holiday(&dt) as i128]
+        }
+        // 40 = 10 (roll) from a datetime with a time of day
+        40 | 41 | 42 | 43 => {
             let t = *a.last().expect("time of day");
             let dt = from_n(a[0]) + chrono::TimeDelta::seconds(t as i64);
             let back = move |d: &chrono::NaiveDateTime| -> Ints {
@@ -158,6 +164,7 @@ fn op1<C: DateRoll>(c: &C, op: i128, a: &[i128]) -> Ints {
                 }
             };
             guard(|| match op {
+                40 => Ok(back(&c.roll(&dt, &modifier(a[1]), a[2] != 0))),
                 41 => match c.add_bus_days(&dt, a[1] as i8, a[2] != 0) {
                     Ok(d) => Ok(back(&d)),
                     Err(_) => Err(()),
